@@ -1,4 +1,5 @@
 import IPT.Model.Range
+import IPT.Model.Times
 /-
   C14 — range results are the per-day results for exactly the days in the range.
   Model: IPT/Model/Range.lean (dates are day numbers; chrono's date arithmetic is validated by the
@@ -150,6 +151,32 @@ theorem partition_empty (s e : Int) (k : Nat) (h : e < s) (hk : 2 ≤ k) : parti
   unfold partLoop
   have : ¬ s ≤ e := by omega
   simp [this]
+
+/-- prayer_times_dt_rng: one entry per date of `start.iter_days().take(num_days)`, each the
+    single-date result (a `for` loop inserting `prayer_times_dt(params, location, date, None)`) -/
+def rngModel {α : Type} [Add α] [Sub α] [Mul α] [Div α] [Neg α] [OfScientific α] [Sc α]
+    (p : Params α) (loc : Location α) (s e : Int) : List (Int × Except Panic DayTimes) :=
+  (rangeDates s e).map fun rd => (rd, prayerTimesDt p loc rd none)
+
+/-- **the range API returns one entry per calendar date from start to end inclusive - none when the
+    end precedes the start - each identical to the single-date API for that date** -/
+theorem rng_is_per_day {α : Type} [Add α] [Sub α] [Mul α] [Div α] [Neg α] [OfScientific α] [Sc α]
+    (p : Params α) (loc : Location α) (s e : Int) :
+    ((rngModel p loc s e).map Prod.fst = rangeDates s e) ∧
+    (∀ x ∈ rngModel p loc s e, x.2 = prayerTimesDt p loc x.1 none) ∧
+    (e < s → rngModel p loc s e = []) ∧
+    (∀ d, (∃ x ∈ rngModel p loc s e, x.1 = d) ↔ s ≤ d ∧ d ≤ e) := by
+  refine ⟨by simp [rngModel, Function.comp_def], ?_, ?_, ?_⟩
+  · intro x hx
+    simp only [rngModel, List.mem_map] at hx
+    obtain ⟨rd, _, rfl⟩ := hx; rfl
+  · intro h; simp [rngModel, rangeDates_empty s e h]
+  · intro d
+    rw [← rangeDates_mem]
+    simp only [rngModel, List.mem_map]
+    constructor
+    · rintro ⟨x, ⟨rd, hrd, rfl⟩, rfl⟩; exact hrd
+    · intro hd; exact ⟨_, ⟨d, hd, rfl⟩, rfl⟩
 
 -- non-vacuity: a concrete range meets the hypotheses and the conclusion is the expected split
 example : partition 738521 738530 4 = [(738521, 738523), (738524, 738526), (738527, 738529), (738530, 738530)] := by
